@@ -287,6 +287,12 @@ func c17Directed() []c17Dir {
 		{spec, true, []lk.Op{load1, load2, {Kind: "add-vectors", Branch: "main", Objs: []int{0}}}, c17Victim{Kind: "op", Op: lk.Op{Kind: "add-vectors", Branch: "main", Objs: []int{0, 1}}}},
 		{spec, true, []lk.Op{load1, load2}, c17Victim{Kind: "op", Op: lk.Op{Kind: "compact", Branch: "main", Objs: []int{0, 1}, Vectors: true}}},
 		{spec, true, []lk.Op{load1, load2, {Kind: "add-vectors", Branch: "main", Objs: []int{0, 1}}}, c17Victim{Kind: "op", Op: lk.Op{Kind: "del-vectors", Branch: "main", Objs: []int{1}}}},
+		// a revert persists a commit snapshot on its way: a snapshot file cut short at a frame boundary must not be trusted
+		{lk.PoolSpec{Name: "p", Key: "k", Order: "asc", Thresh: 20, Stride: 1}, true, []lk.Op{
+			{Kind: "load", Branch: "main", Vals: []string{"{k:9,id:1}", "{k:9,id:2}", "{k:4.,id:3,s:\"\"}", "{k:\"a\",id:4}"}},
+			{Kind: "load", Branch: "main", Vals: []string{"{k:2,id:5}"}},
+			{Kind: "load", Branch: "main", Vals: []string{"{k:\"b\",id:6,s:\"é\"}"}}},
+			c17Victim{Kind: "op", Op: lk.Op{Kind: "revert", Branch: "main", Commit: 6}}},
 	}
 }
 
@@ -486,7 +492,7 @@ func c17Check(c *rt.Ctx, o *rt.Obs, ctx context.Context, b store.Backing, fileLi
 				return
 			}
 			if err := followUp(ctx, l2, lakeState{Pools: map[string]map[string]string{}}, fmt.Sprint(depth)); err != nil {
-				o.Violation(pfx+"follow-up-failed:"+errClass(err)+sfx, fmt.Sprintf("%s\nafter re-creating the lake, follow-up workload failed: %v", where, err))
+				o.Violation(pfx+"follow-up-failed:"+errClass(err)+"|"+anomalyFor(err, b), fmt.Sprintf("%s\nafter re-creating the lake, follow-up workload failed: %v", where, err))
 			}
 			return
 		}
@@ -540,7 +546,7 @@ func c17Check(c *rt.Ctx, o *rt.Obs, ctx context.Context, b store.Backing, fileLi
 				if st2.Err != "" {
 					o.Violation("unreadable:"+errClass(fmt.Errorf("%s", st2.Err))+"|"+primaryAnomaly(fb), fmt.Sprintf("%s\nthen crash inside the follow-up workload (%v); reopening: %s", where, ferr, st2.Err))
 				} else if err := followUp(ctx, l2, st2, "y"); err != nil {
-					o.Violation("follow-up-failed:"+errClass(err)+"|"+primaryAnomaly(fb), fmt.Sprintf("%s\nthen crash inside the follow-up workload; second follow-up failed: %v", where, err))
+					o.Violation("follow-up-failed:"+errClass(err)+"|"+anomalyFor(err, fb), fmt.Sprintf("%s\nthen crash inside the follow-up workload; second follow-up failed: %v\nstorage anomalies after the second crash: %s", where, err, strings.Join(storageAnomalies(fb), ", ")))
 				}
 			}
 		}
@@ -605,6 +611,9 @@ func storageAnomalies(b store.Backing) []string {
 		case strings.HasSuffix(p, ".zng"):
 			if _, err := lk.ReadZNG(lk.NewZctx(), data); err != nil {
 				broken = append(broken, "undecodable("+cls+")")
+			} else if strings.HasSuffix(p, ".snap.zng") && data[len(data)-1] != 0xff {
+				// decodes, but does not end with the end-of-stream marker: cut short at a frame boundary
+				broken = append(broken, "truncated("+cls+")")
 			}
 		case strings.HasSuffix(p, ".vng"):
 			if err := lk.CheckVNG(data); err != nil {
@@ -627,3 +636,19 @@ func storageAnomalies(b store.Backing) []string {
 }
 
 func primaryAnomaly(b store.Backing) string { return storageAnomalies(b)[0] }
+
+// anomalyFor picks the anomaly that goes with the failure: a commit that finds
+// the journal unavailable goes with an entry beyond HEAD if there is one (an
+// unparseable HEAD of some other journal, left by an earlier crash and
+// tolerated, would otherwise be named first).
+func anomalyFor(err error, b store.Backing) string {
+	an := storageAnomalies(b)
+	if err != nil && errClass(err) == "journal-unavailable" {
+		for _, a := range an {
+			if a == "journal-entry-beyond-HEAD" {
+				return a
+			}
+		}
+	}
+	return an[0]
+}
